@@ -3,6 +3,7 @@ package props
 import (
 	"encoding/json"
 	"fmt"
+	"strings"
 	"testing"
 
 	"pgregory.net/rapid"
@@ -140,4 +141,294 @@ func init() {
 		return checkC14(prodW, c, nil)
 	}
 	kit.RegisterReplay("TestC14MutatedMemo", replay)
+}
+
+// ---------------------------------------------------------------------------------------------
+// (b) attribute extremes
+
+var hostileFixed = []string{
+	"0", "-1", "1", "+5", "007", "0x10", "1_0", "1.5", "1e3", "", " ", "abc",
+	"57896044618658097711785492504343953926634992332820282019728792003956564819968",  // 2^255
+	"115792089237316195423570985008687907853269984665640564039457584007913129639935", // 2^256-1
+	"115792089237316195423570985008687907853269984665640564039457584007913129639936", // 2^256
+	"340282366920938463463374607431768211456",                                        // 2^128
+}
+
+var hostileAddrs = []string{
+	"", " ", "noble1", "garbage", "cosmos1wnlew8ss0sqclfalvj6jkcyvnwq79fd74qxxue",
+	"noble1wnlew8ss0sqclfalvj6jkcyvnwq79fd7xxxxxx", "NOBLE1", "\x00",
+}
+
+func bytesOfLen(t *rapid.T, label string) []byte {
+	n := pick(t, label+"/len", []int{0, 1, 20, 31, 32, 32, 32, 33, 40, 64})
+	if n == 0 && chance(t, label+"/nil", 50) {
+		return nil
+	}
+	b := make([]byte, n)
+	fill := byte(rapid.IntRange(0, 3).Draw(t, label+"/fill"))
+	for i := range b {
+		b[i] = fill
+	}
+	return b
+}
+
+func pick[T any](t *rapid.T, label string, xs []T) T {
+	return xs[rapid.IntRange(0, len(xs)-1).Draw(t, label)]
+}
+
+func chance(t *rapid.T, label string, percent int) bool {
+	return rapid.IntRange(0, 99).Draw(t, label) < percent
+}
+
+func genHostileFees(t *rapid.T) []kit.Fee {
+	n := rapid.IntRange(0, 7).Draw(t, "hf/n")
+	var fees []kit.Fee
+	for i := 0; i < n; i++ {
+		var rcpt string
+		if chance(t, fmt.Sprintf("hf/%d/badaddr", i), 15) {
+			rcpt = pick(t, fmt.Sprintf("hf/%d/addr", i), hostileAddrs)
+		} else {
+			rcpt, _ = kit.Recipient(t, fmt.Sprintf("hf/%d/rcpt", i), kit.RecipientClasses)
+		}
+		if chance(t, fmt.Sprintf("hf/%d/fixed", i), 50) {
+			fees = append(fees, kit.Fee{Recipient: rcpt, Fixed: pick(t, fmt.Sprintf("hf/%d/amt", i), hostileFixed)})
+		} else {
+			bps := pick(t, fmt.Sprintf("hf/%d/bps", i), []uint32{0, 1, 2, 5000, 9999, 10000, 10001, 65535, 4294967295})
+			fees = append(fees, kit.Fee{Recipient: rcpt, Bps: bps})
+		}
+	}
+	return fees
+}
+
+func genHostileRoute(t *rapid.T, w *world.World, denom string) kit.Route {
+	// Start from a route the environment accepts (mostly), then apply 0-2 perturbations, so that
+	// a good share of cases gets past the first validation and reaches the deeper code.
+	r := kit.GenRoute(t, w, denom, kit.RouteOpt{EnvValid: chance(t, "hr/envvalid", 80), InternalClasses: kit.RecipientClasses})
+	n := pick(t, "hr/n", []int{0, 1, 1, 1, 2})
+	for i := 0; i < n; i++ {
+		l := fmt.Sprintf("hr/%d", i)
+		var options []string
+		switch r.Kind {
+		case "cctp":
+			options = []string{"mint", "caller", "domain"}
+		case "hyp":
+			options = []string{"token", "rcpt", "hook", "meta", "gas", "fee", "fee", "domain"}
+		case "internal":
+			options = []string{"to", "to"}
+		}
+		options = append(options, "proto", "attrkind", "passthrough")
+		switch pick(t, l+"/what", options) {
+		case "mint":
+			r.MintRecipient = bytesOfLen(t, l+"/mint")
+		case "caller":
+			r.DestCaller = bytesOfLen(t, l+"/caller")
+		case "domain":
+			r.Domain = pick(t, l+"/domain", []uint32{0, 4, 6, 1196573006, 1313817164, 4294967295})
+		case "token":
+			r.TokenID = bytesOfLen(t, l+"/token")
+		case "rcpt":
+			r.Recipient = bytesOfLen(t, l+"/rcpt")
+		case "hook":
+			r.HookID = bytesOfLen(t, l+"/hook")
+		case "meta":
+			r.HookMeta = pick(t, l+"/meta", []string{"0x", "0xzz", "dead", "0x0", "0x\x00", "0X00", "0x" + strings.Repeat("ab", 3000)})
+		case "gas":
+			r.GasLimit = pick(t, l+"/gas", []string{"-1", "0", "1",
+				"115792089237316195423570985008687907853269984665640564039457584007913129639935",
+				"-115792089237316195423570985008687907853269984665640564039457584007913129639935"})
+		case "fee":
+			r.MaxFeeDenom = pick(t, l+"/feed", []string{"", "1", "a", "uusdc", "ufoo", "UUSDC!", "ibc/xyz", "uhuge", "gamm/pool/1"})
+			r.MaxFeeAmount = pick(t, l+"/feea", []string{"-1", "0", "1", "1000000000000000000000",
+				"115792089237316195423570985008687907853269984665640564039457584007913129639935"})
+		case "to":
+			if chance(t, l+"/to/bad", 50) {
+				r.To = pick(t, l+"/tov", hostileAddrs)
+			} else {
+				r.To, _ = kit.Recipient(t, l+"/torcpt", kit.RecipientClasses)
+			}
+		case "proto":
+			id := pick(t, l+"/proto", []int32{-1, 0, 1, 2, 3, 4, 5, 6, 2147483647})
+			r.ProtoID = &id
+		case "attrkind":
+			r.AttrKind = pick(t, l+"/attrkind", []string{"cctp", "hyp", "internal", "fee"})
+		case "passthrough":
+			r.Passthrough = make([]byte, pick(t, l+"/ptlen", []int{1, 100, 70000}))
+		}
+	}
+	return r
+}
+
+// TestC14Attributes: payloads serialised without the validating constructors, with extreme
+// attribute values, through the whole stack.
+func TestC14Attributes(t *testing.T) {
+	w := prod(t)
+	rec := kit.NewRecorder(t, "C14")
+	rapid.Check(t, func(rt *rapid.T) {
+		denom := pick(rt, "denom", kit.AllDenoms)
+		ch := rapid.IntRange(0, world.NumChannels-1).Draw(rt, "channel")
+		if denom == world.Uhuge {
+			ch = 0
+		}
+		A, _ := kit.Amount(rt, "amount", denom)
+		tr := kit.Transfer{Channel: ch, Denom: denom, Amount: A.String(), Route: genHostileRoute(rt, w, denom)}
+		if chance(rt, "with-fee", 70) {
+			if chance(rt, "hostile-fee", 50) {
+				tr.Actions = []kit.Action{{Kind: "fee", Fees: genHostileFees(rt)}}
+			} else {
+				tr.Actions = []kit.Action{{Kind: "fee", Fees: kit.ValidFees(rt, "fees", A, kit.RecipientClasses)}}
+			}
+			if chance(rt, "two-actions", 10) {
+				tr.Actions = append(tr.Actions, kit.Action{Kind: pick(rt, "second", []string{"fee", "swap"})})
+			}
+		}
+		if _, err := kit.BuildMemo(w.Cdc, tr, false); err != nil {
+			// the codec itself cannot serialise this combination; nothing to deliver
+			rec.Label("built", "unserialisable")
+			return
+		}
+		c := caseC14{Transfer: tr}
+		rec.Eval()
+		rec.Label("route", tr.Route.Kind)
+		rec.NonTrivial(kit.JSON(tr))
+		rec.Sample("attributes/"+tr.Route.Kind, tr)
+		if err := checkC14(w, c, rec); err != nil {
+			rec.Fail(rt, c, "%v", err)
+		}
+	})
+	rec.Require("outcome", "success", 5)
+	rec.Require("outcome", "error-ack", 50)
+}
+
+// ---------------------------------------------------------------------------------------------
+// (c) raw packet data, denominations, amounts, identifiers
+
+var hostileDenomTails = []string{
+	"", "!", "x", "/", "//", "a//b", "uusdc/", "/uusdc", "UUSDC", "uusdc ", " uusdc", "uu sdc", "1usdc", "u",
+	"ibc/", "ibc/ZZ", "transfer/channel-3", "transfer/channel-3/uusdc", "\x00", "uusdc\x00", "😀",
+	"a-very-long-denomination-name-that-goes-beyond-the-128-characters-allowed-by-the-sdk-regular-expression-for-coin-denominations-xxxxxxxxxxxxxxxx",
+}
+
+var hostileAmounts = []string{
+	"", "0", "-5", "-0", "+5", "007", "0x10", "1_0", "1.5", "1e3", " 5", "5 ", "abc", "null",
+	"115792089237316195423570985008687907853269984665640564039457584007913129639935",
+	"115792089237316195423570985008687907853269984665640564039457584007913129639936",
+}
+
+var hostileIDs = []string{
+	"", " ", "channel-", "channel-x", "channel--1", "channel-007", "channel-18446744073709551616", "Channel-0", "transfer",
+	"a", "channel-0/", "channel-0:1", "connection-0", "\x00",
+	"a-very-long-identifier-a-very-long-identifier-a-very-long-identifier-a-very-long-identifier-a-very-long-identifier-a-very-long-identifier-x",
+}
+
+func validMemo(t *rapid.T, w *world.World, denom string) string {
+	tr := kit.Transfer{Denom: denom, Amount: "1", Route: kit.GenRoute(t, w, denom, kit.RouteOpt{EnvValid: true})}
+	memo, err := kit.BuildMemo(w.Cdc, tr, true)
+	if err != nil {
+		t.Fatalf("harness: %v", err)
+	}
+	return memo
+}
+
+func TestC14RawPacket(t *testing.T) {
+	w := prod(t)
+	rec := kit.NewRecorder(t, "C14")
+	rapid.Check(t, func(rt *rapid.T) {
+		denom := pick(rt, "denom", []string{world.Uusdc, world.Ufoo, world.Gamm})
+		ch := rapid.IntRange(0, world.NumChannels-1).Draw(rt, "channel")
+		tr := kit.Transfer{Channel: ch, Denom: denom, Amount: "1000", Route: kit.Route{Kind: "internal", To: kit.PlainUser(rt, "to")}}
+		memo := validMemo(rt, w, denom)
+		tr.RawMemo = &memo
+		class := pick(rt, "class", []string{"denom", "denom", "amount", "amount", "ids", "ids", "bytes", "json", "receiver", "memo-bytes"})
+		reached := true
+		switch class {
+		case "denom":
+			prefix := pick(rt, "denom/prefix", []string{
+				world.ReturnDenom(ch, ""), world.ReturnDenom(ch, "") + world.ReturnDenom(ch, ""), "transfer/channel-0/", "", "transfer/", "/",
+			})
+			d := prefix + pick(rt, "denom/tail", hostileDenomTails)
+			tr.RawDenom = &d
+		case "amount":
+			a := pick(rt, "amount/v", hostileAmounts)
+			tr.RawAmount = &a
+		case "ids":
+			which := rapid.IntRange(0, 2).Draw(rt, "ids/which")
+			v := pick(rt, "ids/v", hostileIDs)
+			switch which {
+			case 0:
+				tr.SrcPort = &v
+			case 1:
+				tr.SrcChannel = &v
+			default:
+				tr.DstChannel = &v
+			}
+		case "bytes":
+			tr.RawData = rapid.SliceOfN(rapid.Byte(), 0, 200).Draw(rt, "bytes")
+			reached = false
+		case "json":
+			base := string(world.FTData{Denom: world.ReturnDenom(ch, denom), Amount: "1000", Sender: world.ForeignSender, Receiver: world.OrbiterAddr.String(), Memo: memo}.Bytes())
+			variant := pick(rt, "json/variant", []string{"truncate", "extend", "array", "null", "number", "string", "dupkey", "unknown", "memo-object", "nested"})
+			switch variant {
+			case "truncate":
+				base = base[:rapid.IntRange(0, len(base)-1).Draw(rt, "json/cut")]
+				reached = false
+			case "extend":
+				base += pick(rt, "json/ext", []string{"x", "{}", " ", "\n", "\x00"})
+			case "array":
+				base = "[" + base + "]"
+				reached = false
+			case "null":
+				base = "null"
+				reached = false
+			case "number":
+				base = "1"
+				reached = false
+			case "string":
+				base = `"` + world.OrbiterAddr.String() + `"`
+				reached = false
+			case "dupkey":
+				base = base[:len(base)-1] + `,"receiver":"` + kit.PlainUser(rt, "dup/rcv") + `"}`
+			case "unknown":
+				base = base[:len(base)-1] + `,"extra":1}`
+			case "memo-object":
+				base = `{"denom":"` + world.ReturnDenom(ch, denom) + `","amount":"1000","sender":"` + world.ForeignSender + `","receiver":"` + world.OrbiterAddr.String() + `","memo":` + memo + `}`
+			case "nested":
+				base = `{"denom":{"a":1},"amount":[1],"sender":null,"receiver":"` + world.OrbiterAddr.String() + `","memo":1}`
+			}
+			tr.RawData = []byte(base)
+		case "receiver":
+			tr.Receiver = pick(rt, "receiver/v", []string{
+				kit.Upper(world.OrbiterAddr.String()), world.OrbiterAddr.String() + " ", " " + world.OrbiterAddr.String(),
+				kit.OtherPrefix(world.OrbiterAddr.String(), "cosmos"), "orbiter", "", "\x00", world.DustAddr.String(),
+				world.OrbiterAddr.String()[:len(world.OrbiterAddr.String())-1],
+			})
+		case "memo-bytes":
+			m := string(rapid.SliceOfN(rapid.Byte(), 0, 120).Draw(rt, "memo/bytes"))
+			if chance(rt, "memo/prefix", 50) {
+				m = `{"orbiter":` + m
+			}
+			tr.RawMemo = &m
+		}
+		c := caseC14{Transfer: tr}
+		rec.Eval()
+		rec.Label("class", class)
+		if reached {
+			rec.NonTrivial(kit.JSON(tr))
+		}
+		rec.Sample("raw/"+class, tr)
+		if err := checkC14(w, c, rec); err != nil {
+			rec.Fail(rt, c, "%v", err)
+		}
+	})
+}
+
+func init() {
+	replay := func(raw json.RawMessage) error {
+		c, err := decode[caseC14](raw)
+		if err != nil {
+			return fmt.Errorf("harness: %w", err)
+		}
+		return checkC14(prodW, c, nil)
+	}
+	kit.RegisterReplay("TestC14Attributes", replay)
+	kit.RegisterReplay("TestC14RawPacket", replay)
 }
